@@ -69,6 +69,8 @@ class Coop:
         self.trace.append((str(tid), rec["label"]))
         rec["sem"].release()
         if not self.ctrl.acquire(timeout=120):
+            import faulthandler
+            faulthandler.dump_traceback(all_threads=True)
             raise core.HarnessError(f"managed thread {tid} did not yield within 120 s (blocked outside the scheduler?)")
 
     def done(self, tid):
